@@ -274,7 +274,7 @@ def random_programs(n, seed):
     return out
 
 
-N_TARGETS = 24
+N_TARGETS = 28
 N_LAYOUTS = 6
 
 
@@ -310,6 +310,21 @@ def assign_metadata(body, rng):
             s["layout"] = rng.randrange(N_LAYOUTS)
 
 
+def family_deep():
+    """many managers open at once in ONE frame (the compiler allows 20 statically nested blocks): the analysis walks one
+    handler per open block, and more on the exit paths"""
+    out = []
+    for n, amask, joined in ((17, 0, False), (18, 0b101010101010101010, False), (18, 0, True), (17, 0, None)):
+        body = [S, K("raise")] if joined is None else [S]
+        for d in range(n, 0, -1):
+            a = bool(amask >> (d - 1) & 1)
+            body = [W(0, body, a, join=bool(joined) and d >= 2)]
+        body[0]["deep"] = True
+        # (18 blocks at most, all told: CPython 3.12.1's compiler crashes on 19 nested blocks in an async function)
+        out.append([T(body, handler=[S]), S] if joined is None else body + [S])
+    return out
+
+
 def copy(x):
     if isinstance(x, dict):
         return {k: copy(v) for k, v in x.items()}
@@ -321,7 +336,7 @@ def copy(x):
 def build_programs(n_random, seed, families=True, targets=False):
     progs = []
     if families:
-        progs += family_exit_kinds() + family_body_endings()
+        progs += family_exit_kinds() + family_body_endings() + family_deep()
     if targets:
         progs += family_targets()
     progs += random_programs(n_random, seed)
@@ -332,7 +347,7 @@ def build_programs(n_random, seed, families=True, targets=False):
         if not valid(body):
             continue
         nm = renumber(body)
-        if nm == 0 or nm > 7:
+        if nm == 0 or (nm > 7 and not any(x.get("deep") for x in walk(body))):
             continue
         assign_metadata(body, rng)
         # every 8th program is "padded": it first touches 300 global names and creates its managers through a
@@ -371,6 +386,11 @@ TARGETS = [
     ("env.lst[kzero + 0]", False, "self"),
     ("env.get(k=1).z{m}", False, "self"),
     ("env.lst[0:1]", False, ("s",)),
+    # tuple displays built at run time, where the parentheses / the trailing comma carry meaning
+    ("env.d[kname,]", False, "self"),
+    ("env.d[(kname, kzero), kzero]", False, "self"),
+    ("env.get((kname, kzero)).z{m}", False, "self"),
+    ("env.d[kname, kzero]", False, "self"),
 ]
 assert len(TARGETS) == N_TARGETS
 
